@@ -5,6 +5,7 @@ from __future__ import annotations
 from collections.abc import Collection
 from typing import TYPE_CHECKING, Any
 
+from .ast import TypeSystemDefinitionNode, TypeSystemExtensionNode
 from .block_string import print_block_string
 from .print_string import print_string
 from .visitor import Visitor, visit
@@ -77,7 +78,9 @@ class PrintAstVisitor(Visitor):
         return join(node.definitions, "\n\n")
 
     @staticmethod
-    def leave_operation_definition(node: PrintedNode, *_args: Any) -> str:
+    def leave_operation_definition(
+        node: PrintedNode, key: Any = None, parent: Any = None, *_args: Any
+    ) -> str:
         var_defs = (
             wrap("(\n", join(node.variable_definitions, "\n"), "\n)")
             if has_multiline_items(node.variable_definitions)
@@ -92,8 +95,16 @@ class PrintAstVisitor(Visitor):
             " ",
         )
         # Anonymous queries with no directives or variable definitions can use the
-        # query short form.
-        return ("" if prefix == "query" else prefix + " ") + node.selection_set
+        # query short form, unless they follow a type system definition or extension
+        # which could be continued with a block in braces (like "type Foo").
+        use_short_form = prefix == "query" and not (
+            key
+            and isinstance(parent, tuple)
+            and isinstance(
+                parent[key - 1], (TypeSystemDefinitionNode, TypeSystemExtensionNode)
+            )
+        )
+        return ("" if use_short_form else prefix + " ") + node.selection_set
 
     @staticmethod
     def leave_variable_definition(node: PrintedNode, *_args: Any) -> str:
